@@ -379,7 +379,7 @@ def table_func_new_semantic(F, chk, body, kind, dname, rule):
 
 
 def table_func_new(F, chk, body, kind, dname, rule):
-    subject = ("arg", 1, body["locals"][1]["name"])
+    subject = ("arg", 1, mir.argname(1, body["locals"][1]["name"]))
     paths = mir.walk_inline(body, F)        # a private helper holding the selection match is walked in context
     table = {}
     rejects = 0
